@@ -32,7 +32,7 @@ ALPHA_AB = [("mov", ["(%rax)", "%rbx"]), ("mov", ["%rax", "%rbx"]), ("mov", ["%r
 ALPHA_C = [("ret", []), ("push", ["$0x1"]), ("push", ["$0x10"]), ("push", ["%r8"]), ("push", ["%r8d"]), ("mov", ["$0x1", "%r8"]),
            ("mov", ["$0x10", "%r8d"]), ("mov", ["%r8", "$0x1"]), ("mov", ["%r8d", "$0x10"]), ("imul", ["$0x1", "%r8", "%r8d"]),
            ("imul", ["$0x10", "%r8d", "%r8"])]
-W = ("verdict", "aligned")
+W = ("verdict", "aligned", "addr")     # addr: the same rule under return_only_address (group numbering must not depend on the mode)
 
 
 def bounds(tier):
